@@ -232,6 +232,8 @@ def judge(ctx, sid, s, model, st, count):
         if not mc:
             return bad("model", "the model gives no DC table for the config of scenario %s" % sid, "a table", "none", no_input=True)
         held = dict(kv.split("=", 1) for kv in s["dcs"].split(",") if "=" in kv)
+        if count:
+            st["config_tables_compared"] = st.get("config_tables_compared", 0) + 1
         for kv in ([] if mc[0] == "-" else mc[0].split(",")):
             k, want = kv.split("=", 1)
             got = held.get(k, "-")
@@ -455,6 +457,7 @@ def stage(ctx):
         "model_decision_to_live_outcome": classes, "scheduled_orders": sched,
         "other_calls_in_flight": infl,
         "several_callers_migrated_at_once": st["multi"],
+        "dc_tables_built_from_help_getConfig_compared_with_config_table": st.get("config_tables_compared", 0),
         "timing_retries": retries, "timing_not_reproduced": dropped, "failing_scenarios_not_confirmed_after_enough_violations": skipped,
         "timing_policy": "every failing scenario is run again alone with 4x watchdog and 4x settle pauses (racing free runs up to 3 times), then once on one and once on two processors (GOMAXPROCS: a failure that depends on when a freshly started goroutine first runs shows under load or on few processors) and "
                          "reported only if the same check fails again; waits are for events (frame seen by a reference server, goroutine parked at a "
